@@ -44,10 +44,9 @@ Definition multiset_eqb (a b : list string) : bool :=
   forallb (fun k => Nat.eqb (count_str k a) (count_str k b)) (a ++ b).
 
 (* the modelled domain: distinct cache keys, no "/" or ":" inside names *)
-Definition slash_freeb (p : json) : bool := no_char slash (get_ns p) && no_char slash (get_name p).
 Definition in_domain (fl : flavour) (parents : list json) (s : src) (ev : event) : bool :=
   let objs := ev_obj ev :: parents in
-  forallb slash_freeb objs &&
+  forallb slash_free objs &&
   match controller_of (ev_obj ev) with Some r => no_char slash (or_name r) | None => true end &&
   match fl with
   | FComposite _ => nodup_str (map key_of parents)
@@ -87,4 +86,29 @@ Definition C14_check (c : C14_case) : verdict :=
   | Some clause => PROPFAIL clause
   | None =>
       if multiset_eqb q (f_handle fl ps s ev) then OK else DIVERGE "queue-keys"
+  end.
+
+(* ---- related objects: customize.Manager's onRelated* handlers, called directly;
+   the observation is the list of parents handed to enqueueParent, each
+   identified as apiVersion:kind:ns:name ---- *)
+Record C14r_case := mkC14r {
+  r_cfg : rcfg;
+  r_answers : answers;          (* the customize answers the manager can get: (uid, generation) -> rules *)
+  r_parents : list json;        (* parent informer cache(s) *)
+  r_ev : event;                 (* event on a related object *)
+  r_impl : list string
+}.
+
+Definition C14r_check (c : C14r_case) : verdict :=
+  let ps := r_parents c in let ev := r_ev c in let q := r_impl c in
+  if negb (nodup_str (map d_key_of ps)) then SKIP "parents-not-distinct" else
+  let aff := related_affects (r_cfg c) (r_answers c) ev in
+  match first_fail
+    [ ("resync-enqueued", negb (is_resync ev && nonempty q));
+      ("affected-parent-not-enqueued", negb (existsb (fun p => aff p && negb (mem_str (d_key_of p) q)) ps));
+      ("wrong-parent-woken", forallb (fun k => existsb (fun p => String.eqb (d_key_of p) k && aff p) ps) q) ] with
+  | Some clause => PROPFAIL clause
+  | None =>
+      if multiset_eqb q (map d_key_of (on_related_event (r_cfg c) (r_answers c) ps ev)) then OK
+      else DIVERGE "related-parents"
   end.
